@@ -179,24 +179,22 @@ Theorem C09_return_prefix_is_arc4 :
 Proof. exact return_prefix_value. Qed.
 Print Assumptions C09_return_prefix_is_arc4.
 
-(* CONTRACT (partial: registrations whose registered name is the subroutine's own name — the decorator
-   form, or add_method_handler without a different overriding_name).  For every such list of registered
-   methods and every hash function: the contract lists exactly the registered methods in order with their
-   names, argument type strings and return type string; the selector a client computes from an entry
-   (first 4 bytes of the hash of name(args)returns) is the one the approval program compares
-   ApplicationArgs[0] with; and that is the ARC-4 selector.
-   MISSING for the full statement: registrations with a different overriding_name — there it is false,
-   see C09_contract_name_override_refuted (known finding `contract-ignores-overriding-name`). *)
-Theorem C09_contract_selectors_agree_partial :
+(* CONTRACT.  For EVERY list of registrations (add_method_handler with or without an overriding name; the
+   decorator form) and every hash function: the contract lists exactly the registered methods, in order,
+   under their REGISTERED names, with their argument type strings and return type string; the selector a
+   client computes from an entry (first 4 bytes of the hash of name(args)returns) is the one the approval
+   program compares ApplicationArgs[0] with; and that is the ARC-4 selector.
+   (Before /repo 330bd50 this was false for a different overriding name — the contract kept the
+   subroutine's own name; the model follows the repaired code.) *)
+Theorem C09_contract_selectors_agree :
   forall (hash : string -> bytes) registered,
-    forallb same_name registered = true ->
     map ms_name (contract_methods registered) = map reg_name registered /\
     map ms_args (contract_methods registered) = map (fun r => map type_str (s_params (r_sig r))) registered /\
     map ms_returns (contract_methods registered) = map (fun r => ret_str type_str (s_ret (r_sig r))) registered /\
     contract_selectors hash registered = dispatched_selectors hash registered /\
     dispatched_selectors hash registered = map (fun r => firstn 4 (hash (arc4_sig_str (registered_sig r)))) registered.
-Proof. exact contract_selectors_agree_partial_main. Qed.
-Print Assumptions C09_contract_selectors_agree_partial.
+Proof. exact contract_selectors_agree_main. Qed.
+Print Assumptions C09_contract_selectors_agree.
 
 (* the program always dispatches on the ARC-4 signature under the REGISTERED name *)
 Theorem C09_dispatched_is_registered :
@@ -204,14 +202,11 @@ Theorem C09_dispatched_is_registered :
 Proof. exact dispatched_is_registered_main. Qed.
 Print Assumptions C09_dispatched_is_registered.
 
-(* REFUTED: add_method_handler(add, overriding_name="foo") — the program dispatches on
-   foo(uint64)uint64, the contract describes add(uint64)uint64 (confirmed on the real code by the harness) *)
-Theorem C09_contract_name_override_refuted :
-  exists r, spec_sig_str (spec_of r) <> dispatched_sig_str r /\
-            spec_sig_str (spec_of r) = "add(uint64)uint64"%string /\
-            dispatched_sig_str r = "foo(uint64)uint64"%string.
-Proof. exact contract_name_override_refuted_main. Qed.
-Print Assumptions C09_contract_name_override_refuted.
+(* non-vacuity for the overriding-name case: add_method_handler(add, overriding_name="foo") *)
+Example C09_override_example :
+  spec_sig_str (spec_of ex_override) = "foo(uint64)uint64"%string /\
+  dispatched_sig_str ex_override = "foo(uint64)uint64"%string.
+Proof. exact override_contract_follows_registered_name. Qed.
 
 (* ---- non-vacuity: a 19-parameter call (16 non-transaction arguments -> tuple; 3 transactions; references) ---- *)
 Definition ex_sig : msig :=
